@@ -26,6 +26,7 @@ func init() {
 		run: runC09,
 		mutants: []mutant{
 			{Name: "registerRoutes before Use(auth) in the upstream server", File: "server/upstream/server.go", Old: "\tif verifier != nil {\n\t\tauthMiddleware := middleware.NewAuth(verifier, logger)\n\t\trouter.Use(authMiddleware.Verify)\n\t}\n\n\tserver.registerRoutes(router)\n", New: "\tserver.registerRoutes(router)\n\n\tif verifier != nil {\n\t\tauthMiddleware := middleware.NewAuth(verifier, logger)\n\t\trouter.Use(authMiddleware.Verify)\n\t}\n", Rule: "C09.R1"},
+			{Name: "admin forwarding middleware installed ahead of authentication", File: "server/admin/server.go", Old: "\tif verifier != nil {\n\t\tauthMiddleware := middleware.NewAuth(verifier, logger)\n\t\trouter.Use(authMiddleware.Verify)\n\t}\n\n\tif clusterState != nil {\n\t\trouter.Use(server.forwardInterceptor)\n\t}\n", New: "\tif clusterState != nil {\n\t\trouter.Use(server.forwardInterceptor)\n\t}\n\n\tif verifier != nil {\n\t\tauthMiddleware := middleware.NewAuth(verifier, logger)\n\t\trouter.Use(authMiddleware.Verify)\n\t}\n", Rule: "C09.R1"},
 			{Name: "AbortWithStatusJSON replaced by JSON on the expired arm", File: "pkg/middleware/auth.go", Old: "\t\t\tc.AbortWithStatusJSON(\n\t\t\t\thttp.StatusUnauthorized,\n\t\t\t\tgin.H{\"error\": \"expired token\"},\n\t\t\t)", New: "\t\t\tc.JSON(\n\t\t\t\thttp.StatusUnauthorized,\n\t\t\t\tgin.H{\"error\": \"expired token\"},\n\t\t\t)", Rule: "C09.R2"},
 			{Name: "WithValidMethods dropped", File: "pkg/auth/jwtverifier.go", Old: "\topts := []jwt.ParserOption{\n\t\tjwt.WithValidMethods(v.methods),\n\t}\n", New: "\topts := []jwt.ParserOption{}\n", Rule: "C09.R3"},
 			{Name: "case RS256 returns the HMAC secret", File: "pkg/auth/jwtverifier.go", Old: "\t\t\tcase \"HS512\":\n\t\t\t\treturn v.hmacSecretKey, nil\n\t\t\tcase \"RS256\":\n\t\t\t\tfallthrough\n", New: "\t\t\tcase \"HS512\", \"RS256\":\n\t\t\t\treturn v.hmacSecretKey, nil\n", Rule: "C09.R4"},
@@ -218,7 +219,36 @@ func c09R1(c *Ctx) {
 			}
 			return false
 		}
-		paths, complete := enumPathsAt(fn.Blocks[0], 0, func(i ssa.Instruction) bool { return isUseAuth(i) || isReg(i) }, nil, nil, 2000)
+		isOtherUse := func(i ssa.Instruction) bool {
+			cl, ok := i.(*ssa.Call)
+			if !ok || isUseAuth(i) {
+				return false
+			}
+			n := commonName(&cl.Call)
+			if !strings.HasSuffix(n, "gin.Engine).Use") && !strings.HasSuffix(n, "gin.RouterGroup).Use") {
+				return false
+			}
+			// the panic-recovery middleware may precede authentication: it handles nothing itself
+			for _, a := range cl.Call.Args[1:] {
+				if sl, ok := a.(*ssa.Slice); ok {
+					if al, ok := sl.X.(*ssa.Alloc); ok {
+						for _, r := range *al.Referrers() {
+							if ia, ok := r.(*ssa.IndexAddr); ok {
+								for _, rr := range *ia.Referrers() {
+									if st, ok := rr.(*ssa.Store); ok {
+										if rc, ok := strip(st.Val).(*ssa.Call); ok && strings.Contains(commonName(&rc.Call), "gin.CustomRecovery") {
+											return false
+										}
+									}
+								}
+							}
+						}
+					}
+				}
+			}
+			return true
+		}
+		paths, complete := enumPathsAt(fn.Blocks[0], 0, func(i ssa.Instruction) bool { return isUseAuth(i) || isReg(i) || isOtherUse(i) }, nil, nil, 2000)
 		bad := ""
 		nReg := 0
 		for _, pa := range paths {
@@ -233,7 +263,7 @@ func c09R1(c *Ctx) {
 				}
 				nReg++
 				if configured && !used {
-					bad = "with a verifier configured, the registration at " + p.pos(in.Pos()) + " happens before Use(Auth.Verify): those routes are served without authentication"
+					bad = "with a verifier configured, the route/middleware registration at " + p.pos(in.Pos()) + " happens before Use(Auth.Verify): those routes (or that middleware, e.g. admin forwarding) run without authentication"
 				}
 			}
 			if configured && !used && pa.endWhy == "return" {
